@@ -7,10 +7,11 @@ MODEL_VO = ["theories/C04/Spec.vo", "theories/C04/PkgLeg.vo"]
 PROOF_VO = ["theories/C04/Props.vo"]
 PROPS_V = "theories/C04/Props.v"
 EXTRACT = "extract/C04.v"
-DESIGN_REF = "DESIGN.md section 5, C04 and Appendix C (value level: asetypes.DataType.Bytes / GoValue; the package leg is built on enc_value/dec_value of coq/theories/C04/Model.v)"
+DESIGN_REF = "DESIGN.md section 5, C04 and Appendix C (value level: asetypes.DataType.Bytes / GoValue; package leg: tds/field.go + packageParams.go composed with the value codec, coq/theories/C04/PkgLeg.v on top of coq/theories/Pkg)"
 TECHNIQUE = ("Coq proofs of the round trip per data type class over the whole value domain (calendar: one 146097-day era sweep + "
-             "linear arithmetic, valid for every year) + model-vs-implementation correspondence and executable round-trip "
-             "specification applied to the implementation's output")
+             "linear arithmetic, valid for every year) and of its composition with the PARAMS/ROW field codec for whole rows (induction over the "
+             "column list from the package layer's params_roundtrip and C04_model_meets_spec) + model-vs-implementation correspondence and "
+             "executable round-trip specification applied to the implementation's output, at value level and through the real packages")
 RULE = ("fn 1 = Bytes then GoValue of the produced bytes for (type, length, value): all 256 type codes with nil; every uint8/int8/int16/uint16 "
         "value (INT1, INT2, UINT2; INTN/UINTN 8-bit exhaustive, 16-bit every 7th + boundaries); boundary (0, +-1, +-2^k, 2^k-1, min, max) and random "
         "int32/int64/uint32/uint64; float32/float64 bit patterns for every exponent x {0, 1, mid, max, random mantissa} x sign, NaN payloads, random; "
@@ -24,19 +25,44 @@ RULE = ("fn 1 = Bytes then GoValue of the produced bytes for (type, length, valu
         "microseconds of random days; SHORTDATE for every day 0..65535 x sampled minutes (all 1440 on 3 days); BIGDATETIMEN/BIGTIMEN on the same; "
         "fn 2 = GoValue of arbitrary bytes (all type codes x lengths 0..9, arbitrary UTF-16 incl. lone surrogates, all BIT bytes, temporal lengths); "
         "fn 3 = ByteSize/LengthBytes/GoReflectType/String of all 256 codes; fn 4 = asetime helpers; thorough adds fn 9 = all 25.92M ticks of two days on the Go side. "
-        "Values off the property's domain (tag offdomain/malformed) are compared with the model only. A case is non-trivial when its value is not NULL; distinct by (fn, input).")
+        "Values off the property's domain (tag offdomain/malformed) are compared with the model only. A case is non-trivial when its value is not NULL; distinct by (fn, input). "
+        "PACKAGE LEG (about 3000 cases quick, 16000 thorough): fn 20 = the real client path for lists of (format, value): Go value -> LookupFieldData(fmt).SetValue -> "
+        "ParamsPackage / RowPackage with its PARAMFMT / PARAMFMT2 / ROWFMT / ROWFMT2 package (read by the library from a reference encoding) as LastPkg -> WriteTo -> "
+        "wire bytes -> LookupPackage + LastPkg + ReadFrom on a queue of 512-byte packets -> Status()/Value() of every field; compared with the model (bytes, class, "
+        "bytes consumed, values) and judged by leg_judge (the wire is the layout of the columns, all bytes consumed, Spec.roundtrip_ok on every value that comes out, "
+        "DECN/NUMN precision and scale from the format, NULL <-> zero length, status bytes): every plain data type (33 types, fixed and nullable variants, with and without the "
+        "status byte) with boundary + random values (integer kinds at min/max/0/+-1/byte-width boundaries; float bit patterns incl. NaN/Inf/-0; money int64/int32 "
+        "extremes; decimals for several (p, s) with 0, +-1, +-(10^p-1); pre-1900, year 1, year 9999 and tick-boundary times; NULL for every nullable type) as a single "
+        "column, data lengths 1, 2, 253, 254, 255 (in the domain) and 256, 257, 300, 511, 512 (beyond the prefix: compared with the model only) for the 1-byte-prefix types "
+        "CHAR/VARCHAR/BINARY/VARBINARY alone and as the middle column of a row, 1, 255, 256, 65535, 65536, 70000 for the 4-byte-prefix types LONGCHAR/LONGBINARY (there is no "
+        "data type with a 2-byte prefix), 250 (thorough 6000) random rows of 2..7 columns over all plain types. fn 21 = decode direction: rows reference-encoded by the harness' own "
+        "value codec and the TDS field layout (the spec checks that body against the Coq layout), read by the library, Value() judged strictly: all plain types with status "
+        "bytes, multi-column rows, and single text-pointer columns TEXT/IMAGE/UNITEXT/XML (lengths 1..700, 65536, Unicode over all planes, NULL, pointer lengths 0/16/255). "
+        "fn 22 = the same text-pointer rows (alone and mixed with plain columns) judged by the part that holds: Value() is exactly the data bytes and dec_value maps them to the value. "
+        "Columns outside PkgLeg.col_claim (value off the domain, length beyond the prefix, NULL for a fixed-length type, ...) are compared with the model only.")
 TRUSTED = ["Coq 8.16.1 kernel + vm_compute (no native_compute)",
            "hand-written model coq/theories/C04/{GoInt,Calendar,Utf16,Model}.v of asetypes/{bytes,goValue,decimal}.go and asetime (tied by this correspondence check); "
            "tables ByteSize/LengthBytes/GoReflectType/String in Gen/GenC04.v produced by executing the code",
            "harness/cmd/c04 (canonicalisation of Go values: time.Time as UTC fields, decimals as (precision, scale, unscaled), floats by bit pattern, "
            "strings by bytes / UNITEXT by code points), ocaml/driver.ml, extraction with ExtrOcamlBasic only",
+           "package leg: the hand-written field/params models coq/theories/Pkg/{Field,Fmts}.v (shared with C06, tied by C06's and this correspondence), their tables "
+           "Gen/GenPkg.v produced by executing the code, harness/cmd/c04/pkgleg.go (reference format/field layout, harness/pk queue helpers, harness/pk/core.FmtTree), "
+           "tds/verif_hooks.go (VerifState, VerifFmtExtras)",
            "Go's time package (time.Date normalisation, AddDate, Add, Year/Month/Day/...) and math/big, modelled as the proleptic Gregorian calendar / integers"]
 ASSUMPTIONS = ["asetime.MillisecondToFractionalSecond / FractionalSecondToMillisecond compute in float64; the model uses the integer formulas "
                "round-half-away(3*us/10^4) and trunc(1000*t/300); this replacement is validated by the correspondence run, not proved",
                "the byte order argument is binary.LittleEndian (the package variable tds.endian)",
                "Go strings are identified with their byte sequence (char types) or code point sequence (UNITEXT; []rune / string(runes) conversions are not modelled, harness strings are valid UTF-8)",
                "time.Time values are given by their UTC civil fields; years outside 1..9999 are compared with the model only",
-               "Decimal values beyond int64 for money, wrong Go types, wrong lengths: compared with the model only (outside the property's domain)"]
+               "Decimal values beyond int64 for money, wrong Go types, wrong lengths: compared with the model only (outside the property's domain)",
+               "package leg, side condition of the domain (boolean PkgLeg.col_claim): the encoded value fits the width of its length prefix, zlen (enc_value t v) < 256^LengthBytes "
+               "(255 bytes for the 1-byte-prefix types, 2^32-1 for LONGCHAR/LONGBINARY and text-pointer data). Beyond it fieldDataBase.writeTo writes uint8(len)/uint32(len) "
+               "silently (a 256-byte VARCHAR goes out as length byte 00 + 256 data bytes and reads back as NULL with 256 stray bytes left); the declared MaxLength is not enforced "
+               "by the writer either. Both are outside the property's domain (string length 1..max) and only compared with the model (Example C04_ex_pkg_overlong)",
+               "package leg: a client-built FieldData always has status 0 (no setter); non-zero status bytes are exercised in the decode direction only",
+               "package leg: DECN/NUMN values are claimed only with the precision/scale of their format (precision and scale are not on the wire in the data, they travel in the format)",
+               "package leg: for the text-pointer family only the decode direction is claimed (a client never sends it); leg_write is there the reference row layout, not fieldDataTxtPtr.WriteTo",
+               "package leg: packets are fed complete (fragmentation independence is C02/C07); the format packages are obtained by letting the library read reference encodings (C06 decides their codec)"]
 LEVEL_TEXT = ("Machine-checked theorems, for ALL values of each domain: C04_int_roundtrip, C04_intn_roundtrip (every value of every width), C04_float_roundtrip "
               "(all bit patterns), C04_bit_roundtrip, C04_money_roundtrip / C04_shortmoney_roundtrip (whole int64 / int32 range), C04_numeric_roundtrip (every "
               "integer, unbounded), C04_char_roundtrip / C04_binary_roundtrip (every non-empty byte string), C04_unitext_roundtrip (every list of scalar values "
@@ -44,9 +70,21 @@ LEVEL_TEXT = ("Machine-checked theorems, for ALL values of each domain: C04_int_
               "exact on ticks, incl. the carry into the next day), C04_smalldatetime, C04_bigdatetime_us, C04_bigtime_us, C04_time_tick (with the saturating last "
               "half tick), C04_null, C04_null_decimal, C04_civil_inverse (every year), C04_ref_index_is_walk, and the summary C04_model_meets_spec: the model "
               "satisfies the executable round-trip specification on the whole domain (Spec.in_domain) and for NULL of every nullable type. The executable specification (domains of Appendix C, "
-              "tolerance measured with an independent next_day calendar) is applied to every implementation output.")
+              "tolerance measured with an independent next_day calendar) is applied to every implementation output. "
+              "Package leg: C04_pkg_roundtrip (for EVERY list of claimed columns, any mix of types, PARAMS or ROW: the package written for them is read back by the package decoder with the "
+              "formats as context, consuming exactly the bytes written whatever follows; every field carries the status sent and the encoded value, NULL travels as zero length, and dec_value "
+              "maps the field data back to the value as roundtrip_ok says; by induction over the list from Pkg.CoreRoundtrip.params_roundtrip and C04_model_meets_spec; covers the decode "
+              "direction of the text-pointer family), C04_pkg_model_meets_spec (the model of WriteTo/ReadFrom/Value() satisfies the executable specification leg_judge: strictly for plain, "
+              "precision/scale and IMAGE/XML columns, and for all columns the part val_raw_ok), C04_pkg_txtptr_refuted + C04_pkg_txtptr_witnesses (the strict statement is FALSE of the "
+              "faithful model for TEXT, UNITEXT and NULL text-pointer columns: fieldDataTxtPtr.ReadFrom delivers the raw bytes; recorded as known findings), C04_pkg_maxlen_admits, and the "
+              "table obligations C04_pkg_tables_agree / _len_table_covers / _nullable_not_fixed / _class2_is_decimal re-proved against the regenerated tables on every run.")
 LEVEL_NOTE = ("Trusted: Coq kernel, the hand-written model (validated on ~0.9M cases per quick run with 0 mismatches), the Go harness and its canonicalisation, "
               "extraction and the OCaml driver; the float-to-integer replacement in the tick conversions is an assumption validated by the correspondence. No axioms. "
-              "The package-level leg (values inside PARAMS/ROW packages, tds/field.go) is not part of this module's cases.")
+              "The package leg rests in addition on the hand-written Pkg/Field.v, Pkg/Fmts.v models (0 mismatches on ~3000 package cases per quick run) and on the harness' reference "
+              "format/field layout. Known findings (fn 21): text-pointer rows deliver raw bytes instead of the Go value for TEXT/UNITEXT and a non-nil empty []byte for NULL.")
+import re as _re
+_PKG_VALUE = _re.compile(r"\) -?\d+ #[0-9a-f]* #[0-9a-f]* \([^)]")   # a column (format status #txtptr #timestamp value) whose value is not ()
 def nontrivial(c):
+    if c[0] in ("20", "21", "22"):      # package leg: at least one column carries a non-NULL value
+        return bool(_PKG_VALUE.search(c[1]))
     return "\t" not in c[1] and " ()" not in c[1][-4:]
